@@ -74,6 +74,8 @@ pub enum Ev {
     Client(u8),
     /// the journal thread answers the oldest pending flush / prune
     FlushDone,
+    /// a worker that was told to stop closes its connection (consequence of `Stop`, not a fault)
+    Disconnect(u8),
 }
 
 impl Ev {
@@ -426,6 +428,8 @@ pub struct WorkerSlot {
     from_worker_rx: UnboundedReceiver<Bytes>,
     pub to_worker: VecDeque<Bytes>,
     pub to_server: VecDeque<Bytes>,
+    /// the worker processed `Stop` and is about to close its connection
+    pub stopping: bool,
 }
 
 pub enum PendingJournalOp {
@@ -1133,6 +1137,7 @@ impl System {
             from_worker_rx,
             to_worker: VecDeque::new(),
             to_server: VecDeque::new(),
+            stopping: false,
         });
         self.worker_ids[slot] = Some(id.as_num());
     }
@@ -1275,6 +1280,7 @@ impl System {
                 format!("client:{}", req.map(super::monitors::req_kind).unwrap_or("?"))
             }
             Ev::FlushDone => "flush-done".into(),
+            Ev::Disconnect(_) => "worker-stopped".into(),
         }
     }
 
@@ -1290,11 +1296,15 @@ impl System {
         let mut evs = Vec::new();
         for (i, w) in self.workers.iter().enumerate() {
             if let Some(w) = w {
-                if !w.to_worker.is_empty() {
+                if !w.to_worker.is_empty() && !w.stopping {
                     evs.push(Ev::ToWorker(i as u8));
                 }
                 if !w.to_server.is_empty() {
                     evs.push(Ev::ToServer(i as u8));
+                }
+                if w.stopping && w.to_server.is_empty() {
+                    // the worker's send loop drains before the connection closes
+                    evs.push(Ev::Disconnect(i as u8));
                 }
             }
         }
@@ -1356,7 +1366,7 @@ impl System {
             return false;
         }
         for w in self.workers.iter().flatten() {
-            if !w.to_worker.is_empty() || !w.to_server.is_empty() {
+            if (!w.to_worker.is_empty() && !w.stopping) || !w.to_server.is_empty() || w.stopping {
                 return false;
             }
         }
@@ -1392,7 +1402,12 @@ impl System {
                         tasks,
                         kind,
                     });
-                    let _stop = slot.sim.deliver(&frame);
+                    let stop = slot.sim.deliver(&frame);
+                    if stop {
+                        // worker_message_loop returns; run_worker cancels the running tasks and
+                        // ends (cancel_running_tasks_on_worker_end): their executions die with it
+                        slot.stopping = true;
+                    }
                 }
                 Ev::ToServer(i) => {
                     let slot = self.workers[i as usize].as_mut().expect("worker slot");
@@ -1460,6 +1475,30 @@ impl System {
                     drop(slot);
                     self.server.lose_worker(id, reason);
                     self.used.kill += 1;
+                }
+                Ev::Disconnect(i) => {
+                    let slot = self.workers[i as usize].take().expect("worker slot");
+                    self.obs.push(Obs::Kill {
+                        slot: i,
+                        worker: slot.id.as_num(),
+                        reason: LostWorkerReason::Stopped,
+                    });
+                    {
+                        let mut l = self.launcher.borrow_mut();
+                        for e in l.execs.iter_mut() {
+                            if e.slot == i && !matches!(e.state, ExecState::Done) {
+                                e.state = ExecState::Dead;
+                                e.end_tx = None;
+                                e.flush_tx = None;
+                            }
+                        }
+                    }
+                    let id = slot.id;
+                    slot.sim.dispose();
+                    drop(slot);
+                    // the receive loop ends with "connection closed"; worker_rpc_loop replaces the
+                    // reason by the recorded stop reason
+                    self.server.lose_worker(id, LostWorkerReason::ConnectionLost);
                 }
                 Ev::Join(i) => {
                     drop(_l);
